@@ -3,8 +3,10 @@
 # with /root/.vp/BASELINE.json (65 stable tests). Exit 0 iff every baseline test passes.
 export GOFLAGS=-mod=mod GOPROXY=off GOSUMDB=off GOTOOLCHAIN=local
 OUT=$(mktemp /tmp/verif.baseline.XXXXXX.json)
-trap 'rm -f "$OUT"' EXIT
-(cd /repo && go test -mod=mod -json -vet=off -count=1 -timeout 25m ./... > "$OUT" 2>/dev/null)
+# the repository's tests leave their temporary ledgers behind: give them a directory of their own
+TMPD=$(mktemp -d /tmp/verif.baseline.tmp.XXXXXX)
+trap 'rm -rf "$OUT" "$TMPD"' EXIT
+(cd /repo && TMPDIR="$TMPD" go test -mod=mod -json -vet=off -count=1 -timeout 25m ./... > "$OUT" 2>/dev/null)
 python3 - "$OUT" <<'PY'
 import json,sys
 passed=set()
